@@ -6,12 +6,14 @@ SKELETONS = [
     ["I:r0:raw:0"], ["I:r0:raw:0", "I:r1:clo:1"], ["I:r0:raw:0", "I:r0:fake:2", "C:r0"], ["I:b0:bool:1", "I:r2:unc:3"],
     ["T:r0:1", "C:r0"], ["T:r0:2", "C:r0", "T:r1:1", "C:r1"], ["T:r0:1"], ["T:r0:2", "C:r0", "C:r0", "T:r1:4"],
     ["T:r0:3", "C:r0", "I:r1:raw:1", "T:r2:1"], [], ["I:r0:raw:0", "T:r1:0"], ["T:r3:5", "C:r3", "CX:r3", "I:r4:clo:0"],
+    # one function faked twice in the lifetime AND an expectation that fails at scope exit: the verification panic is raised inside the injector's own drop
+    ["I:r0:raw:0", "T:r0:2", "C:r0"], ["T:r1:1", "I:r0:clo:1", "I:r0:raw:3", "I:b0:bool:1", "I:b0:bool:0"], ["T:r0:2", "C:r0", "I:r0:fake:1", "C:r0", "T:r2:3", "C:r2"],
 ]
 PANICS = ["P", "BADSIG:r5", "NULL:r5", "BADBOOL:r5", "MPFAIL:r5", "CXP", "OVER", "NOMEM:r5"]
 
 def scripts(tier, r):
     """every skeleton x every position x every kind of library-raised panic, 1-3 lifetimes"""
-    out = []
+    out = []; plain = []
     i = 0
     for sk in SKELETONS:
         for pos in range(len(sk) + 1):
@@ -28,12 +30,12 @@ def scripts(tier, r):
                 lts = [ops] + [list(sk)] * (nl - 1)
                 out.append((f"s{i} r0,r1,r2,r3,r4,r5,b0,fk0,fk1,fk2,fk3 " + "|".join(",".join(o) if o else "-" for o in lts), lts))
                 i += 1
-        # and the skeleton alone (no injected panic): pending expectations decide
-        out.append((f"s{i} r0,r1,r2,r3,r4,r5,b0,fk0,fk1,fk2,fk3 " + (",".join(sk) if sk else "-"), [list(sk)])); i += 1
-    return out
+        # and the skeleton alone (no injected panic), twice in a row: the pending expectations decide how the scope is left
+        plain.append((f"p{i} r0,r1,r2,r3,r4,r5,b0,fk0,fk1,fk2,fk3 " + "|".join([",".join(sk) if sk else "-"] * 2), [list(sk), list(sk)])); i += 1
+    return out, plain
 
 def run(res, tier, seed, replay):
-    res.cov["rule"] = ("real, fault enumeration: 12 script skeletons x every position x 8 kinds of panic (user panic; refused signature; null pointer; refused boolean; mprotect failing at install via the interposer; a fake rejecting its arguments; "
+    res.cov["rule"] = ("real, fault enumeration: 15 script skeletons (three of them fake one function twice and leave an expectation unmet, so that the verification panic is raised inside the injector's drop) x every position x 8 kinds of panic (user panic; refused signature; null pointer; refused boolean; mprotect failing at install via the interposer; a fake rejecting its arguments; "
                        "an over-called fake; 'Failed to allocate JIT memory' via an always-failing mmap) x 0-3 pending satisfied/unsatisfied call-count expectations, 1-3 lifetimes, each in a forked child; observed: catch_unwind result and message class, "
                        "number of panics (panic hook), exit status (SIGABRT/SIGSEGV), bytes/behaviour of all targets after unwinding, a fresh thread creating an injector within 3 s; the extracted model runs the same script on the observed kernel answers; "
                        "distinct = distinct (lifetimes, op-kind set, repeated-target flag)")
@@ -43,7 +45,8 @@ def run(res, tier, seed, replay):
     ok, out = vlib.build_extract()
     if not ok: res.broke("extraction of the model failed", out); return
     r = random.Random(seed + 5)
-    sc = scripts(tier, r)
+    sc, plain = scripts(tier, r)
     if tier == "quick": sc = sc[::2]
+    sc = plain + sc
     histlib.check_histories(res, "c05", 0, seed + 5, "full", extra_lines=sc, novals=True, nodiff=True)
     res.extra["scripts"] = len(sc)
